@@ -56,12 +56,28 @@ func newLineUniverse(r *hlib.Rand) *lineUniverse {
 		}
 		u.TagLists = append(u.TagLists, strings.Join(ts, ","))
 	}
+	// latency-histogram timers (tag gsd_histogram:<bucket list>) take their own branches in
+	// Flush and Reset: two runs out of three have a tag list with such a tag (well-formed bucket
+	// lists, lists with malformed items, an empty list)
+	if r.Chance(2, 3) {
+		ht := hlib.Pick(r, histogramTags)
+		if r.Bool() && len(mu.Tags) > 0 {
+			if r.Bool() {
+				ht = hlib.Pick(r, mu.Tags) + "," + ht
+			} else {
+				ht = ht + "," + hlib.Pick(r, mu.Tags)
+			}
+		}
+		u.TagLists = append(u.TagLists, ht)
+	}
 	ni := r.Range(1, 2)
 	for i := 0; i < ni; i++ {
 		u.IPs = append(u.IPs, hlib.Pick(r, sources))
 	}
 	return u
 }
+
+var histogramTags = []string{"gsd_histogram:10_20_50", "gsd_histogram:-5_0_2.5_1e3", "gsd_histogram:1", "gsd_histogram:10_abc_50_", "gsd_histogram:", "gsd_histogram:_x_", "gsd_histogram:100_10_100"}
 
 func genLine(r *hlib.Rand, u *lineUniverse) string {
 	if r.Chance(1, 40) { // the reject path of the parser: the line is dropped, nothing else is
@@ -120,6 +136,7 @@ func genSys(r *hlib.Rand, tier string) input {
 			in.Exp[i] = int64(r.Intn(2))
 		}
 	}
+	in.HistLimit = hlib.Pick(r, []int{0, 0, 2, 10})
 	in.Sched = r.U64()
 	u := newLineUniverse(r)
 	nlines := r.Range(40, 220)
@@ -411,7 +428,7 @@ func runSys(in input, rep uint64) hlib.Case {
 	nAgg := 0
 	exp := func(i int) time.Duration { return time.Duration(in.Exp[i]) }
 	af := statsd.AggregatorFactoryFunc(func() statsd.Aggregator {
-		a := statsd.NewMetricAggregator([]float64{90}, exp(0), exp(2), exp(3), exp(1), gostatsd.TimerSubtypes{}, 0)
+		a := statsd.NewMetricAggregator([]float64{90}, exp(0), exp(2), exp(3), exp(1), gostatsd.TimerSubtypes{}, uint32(in.HistLimit))
 		w := &aggWrap{inner: a, id: nAgg, ids: &ids}
 		nAgg++
 		return w
@@ -489,8 +506,11 @@ func runSys(in input, rep uint64) hlib.Case {
 		for (atomic.LoadInt64(&hw.dispatched) < int64(wantDispatches) || bh.VerifC01Queued() > 0) && ctx.Err() == nil {
 			time.Sleep(20 * time.Microsecond)
 		}
-		atomic.AddInt64(&flushNo, 1)
-		flusher.VerifC01FlushData(ctx, time.Second, statser)
+		// two final flushes: whatever a Reset failed to clear shows up again in the second one
+		for i := 0; i < 2; i++ {
+			atomic.AddInt64(&flushNo, 1)
+			flusher.VerifC01FlushData(ctx, time.Second, statser)
+		}
 	}()
 	select {
 	case <-finished:
@@ -611,7 +631,16 @@ func runSys(in input, rep uint64) hlib.Case {
 	}
 	c.Class = "sys/" + expClass + "/" + q
 	c.Nontrivial = len(flushesWithData) >= 2 && len(sent) >= 2
-	c.Obs = map[string]interface{}{"lines": len(lines), "accepted": accepted, "series": len(sent), "flushes": atomic.LoadInt64(&flushNo),
+	histLines := 0
+	for _, l := range lines {
+		if strings.Contains(l, "gsd_histogram:") && (strings.Contains(l, "|ms") || strings.Contains(l, "|h")) {
+			histLines++
+		}
+	}
+	if histLines > 0 {
+		c.Class += "/hist"
+	}
+	c.Obs = map[string]interface{}{"lines": len(lines), "accepted": accepted, "series": len(sent), "flushes": atomic.LoadInt64(&flushNo), "histogram_timer_lines": histLines,
 		"flushes_with_data": len(flushesWithData), "maps_captured": len(caps)}
 	return c
 }
